@@ -4,6 +4,7 @@
 package pipe
 
 import (
+	"regexp"
 	"bytes"
 	"fmt"
 	gotoken "go/token"
@@ -309,7 +310,12 @@ func SplitGen(src string, tablePrefixes []string, cutFuncs []string, cutConst bo
 				name := rest[:sp]
 				match := false
 				for _, pre := range tablePrefixes {
-					if strings.HasPrefix(name, pre) {
+					if pre == "*" {
+						// any package-level table of integers (or of such tables)
+						if strings.HasPrefix(name, "_") && intTableRe.MatchString(ln) {
+							match = true
+						}
+					} else if strings.HasPrefix(name, pre) {
 						match = true
 					}
 				}
@@ -404,6 +410,39 @@ func SplitGen(src string, tablePrefixes []string, cutFuncs []string, cutConst bo
 	return p, nil
 }
 
+var intTableRe = regexp.MustCompile(`^var _\w+ = (\[\])?\[\]u?int(8|16|32|64)?\{`)
+
+// KnownTable reports whether the carrier harness installs the table itself
+// (the four parser tables, the mode tables and their index); any other table
+// of integers a template declares is an "extra" table, installed by name.
+func KnownTable(name string) bool {
+	switch name {
+	case "_rules", "_termCounts", "_actions", "_goto", "_lexerModes":
+		return true
+	}
+	return strings.HasPrefix(name, "_lexerMode")
+}
+
+// ExtraTables lists the extra tables of a split file in file order.
+func (p *GenParts) ExtraTables() []string {
+	var out []string
+	for _, n := range p.Order {
+		if !KnownTable(n) {
+			out = append(out, n)
+		}
+	}
+	return out
+}
+
+// TableElem returns the element type of a table declared in src ("" if absent).
+func TableElem(src, name string) string {
+	m := regexp.MustCompile(`(?m)^var ` + regexp.QuoteMeta(name) + ` = \[\](u?int(?:8|16|32|64)?)\{`).FindStringSubmatch(src)
+	if m == nil {
+		return ""
+	}
+	return m[1]
+}
+
 // tableClass maps _lexerMode3 -> _lexerModeN so that the skeleton is the same
 // whatever the number of modes.
 func tableClass(name string) string {
@@ -429,11 +468,11 @@ func CollapseModeMarkers(sk string) string {
 }
 
 func ParserParts(src string) (*GenParts, error) {
-	return SplitGen(src, []string{"_rules", "_termCounts", "_actions", "_goto"}, []string{") _act("}, false)
+	return SplitGen(src, []string{"_rules", "_termCounts", "_actions", "_goto", "*"}, []string{") _act("}, false)
 }
 
 func LexerParts(src string) (*GenParts, error) {
-	p, err := SplitGen(src, []string{"_lexerMode"}, nil, false)
+	p, err := SplitGen(src, []string{"_lexerMode", "*"}, nil, false)
 	if err != nil {
 		return nil, err
 	}
